@@ -5,8 +5,8 @@ import BpModel.WellTyped
   `msgOkB_sound` in BpProofs/OkSound.lean).  Every function here is total and structurally
   recursive (or not recursive at all), so `decide` / `rfl` evaluate closed terms.
 
-  The field-kind predicates (`FlatField`, `SubField`, `TimeField`, `WrapField`, `MapFieldS`,
-  `MapFieldM`), `flatSlotOk`, `NumsDistinct`, `WfGroups`, `KeysDistinct`, `UnkOk` and
+  The field-kind predicates (`FlatField`, `SubField`, `TimeField`, `TimesField`, `WrapField`,
+  `MapFieldS`, `MapFieldM`, `MapFieldT`), `flatSlotOk`, `timeValOk`, `NumsDistinct`, `WfGroups`, `KeysDistinct`, `UnkOk` and
   `isUnknownField` live in BpProofs and cannot be imported from the model: the functions
   below re-define what they say as Bool functions.
 -/
@@ -55,6 +55,24 @@ def mapFieldSB (f : FieldD) : Bool :=
 def mapFieldMB (f : FieldD) (c : Nat) : Bool :=
   f.ty == PType.map && mapKeyTypeB f.mapK && f.mapV == PType.message && f.mapVKind == MsgKind.user c
   && numOk f.num && !f.repeated && !f.optional && f.group.isNone && f.wraps.isNone
+
+/-- `TimesField f isDur` -/
+def timesFieldB (f : FieldD) (isDur : Bool) : Bool :=
+  f.ty == PType.message && f.wraps.isNone
+  && f.kind == (if isDur then MsgKind.duration else MsgKind.timestamp)
+  && numOk f.num && f.repeated && !f.optional && f.group.isNone
+
+/-- `MapFieldT f isDur` -/
+def mapFieldTB (f : FieldD) (isDur : Bool) : Bool :=
+  f.ty == PType.map && mapKeyTypeB f.mapK && f.mapV == PType.message
+  && f.mapVKind == (if isDur then MsgKind.duration else MsgKind.timestamp)
+  && numOk f.num && !f.repeated && !f.optional && f.group.isNone && f.wraps.isNone
+
+/-- `timeValOk isDur v` -/
+def timeValOkB (isDur : Bool) : Val → Bool
+  | .ts us => !isDur && tsOk us
+  | .dur us => isDur && durOk us
+  | _ => false
 
 /-- `∃ c, SubField f c` -/
 def subFieldAnyB (f : FieldD) : Bool :=
@@ -199,6 +217,8 @@ def slotOkB (S : Schema) (f : FieldD) : Val → Bool
     || (match f.kind with
         | .user c => subFieldB f c && f.repeated && msgsOkB S c xs
         | _ => false)
+    || (timesFieldB f false && xs.all (timeValOkB false))
+    || (timesFieldB f true && xs.all (timeValOkB true))
   | .ts us => timeFieldB f false && tsOk us
   | .dur us => timeFieldB f true && durOk us
   | .dict ks vs =>
@@ -208,6 +228,10 @@ def slotOkB (S : Schema) (f : FieldD) : Val → Bool
         | .user c => mapFieldMB f c && ks.length == vs.length && ks.all (scalarOk f.mapK)
                       && msgsOkB S c vs && keysDistinctB ks
         | _ => false)
+    || (mapFieldTB f false && ks.length == vs.length && ks.all (scalarOk f.mapK)
+          && vs.all (timeValOkB false) && keysDistinctB ks)
+    || (mapFieldTB f true && ks.length == vs.length && ks.all (scalarOk f.mapK)
+          && vs.all (timeValOkB true) && keysDistinctB ks)
   | v =>
     (flatFieldB f && !f.repeated && scalarOk f.ty v)
     || (match f.wraps with
